@@ -153,7 +153,9 @@ type c12Sys struct {
 	gen      func(env *c12Env, variant int, sess []byte, rng *rand.Rand, lib io.Reader, ia, ib int) (*c12Tr, error)
 	verify   func(t *c12Tr) bool
 	sim      func(t *c12Tr, e *c12Chal) map[string][]c12V
-	chal     func(t *c12Tr) *c12Chal
+	chal     func(t *c12Tr) *c12Chal      // the challenge read off the transcript without hashing (dln), if possible
+	hashIn   func(t *c12Tr) []c12HashItem // the values the library feeds to the challenge hash, named
+	tagged   bool                         // ... through the session-tagged hash
 	guards   func(t *c12Tr) bool
 	modOf    func(t *c12Tr, kind string) *big.Int // modulus a group element of this kind is reduced by
 	order    func(t *c12Tr, comp string) *big.Int // integer components: a number n with v+n equivalent to v in every group v acts in
@@ -355,10 +357,10 @@ func c12Schnorr() *c12Sys {
 	s.sim = func(t *c12Tr, e *c12Chal) map[string][]c12V { // t*G = alpha + c*X
 		return map[string][]c12V{"Alpha": {c12P(t.cur.sub(t.cur.base(t.i("T")), t.cur.mul(e.E, *t.st["X"].P)))}}
 	}
-	s.chal = func(t *c12Tr) *c12Chal {
+	s.tagged = true
+	s.hashIn = func(t *c12Tr) []c12HashItem {
 		g := t.cur.g.Gen()
-		in := append(append(c12XY(t.st["X"]), g.X, g.Y), c12XY(t.pf["Alpha"][0])...)
-		return &c12Chal{E: c12HashQ(t.q(), t.sess, true, in...)}
+		return []c12HashItem{{"X", c12XY(t.st["X"])}, {"G", []*big.Int{g.X, g.Y}}, {"Alpha", c12XY(t.pf["Alpha"][0])}}
 	}
 	s.guards = func(t *c12Tr) bool { return new(big.Int).Mod(t.i("T"), t.q()).Sign() != 0 && !t.st["X"].P.Inf }
 	s.order = func(t *c12Tr, comp string) *big.Int { return t.q() }
@@ -401,10 +403,10 @@ func c12SchnorrV() *c12Sys {
 		lhs := t.cur.g.Add(t.cur.mul(t.i("T"), *t.st["Rp"].P), t.cur.base(t.i("U")))
 		return map[string][]c12V{"Alpha": {c12P(t.cur.sub(lhs, t.cur.mul(e.E, *t.st["V"].P)))}}
 	}
-	s.chal = func(t *c12Tr) *c12Chal {
+	s.tagged = true
+	s.hashIn = func(t *c12Tr) []c12HashItem {
 		g := t.cur.g.Gen()
-		in := append(append(append(c12XY(t.st["V"]), c12XY(t.st["Rp"])...), g.X, g.Y), c12XY(t.pf["Alpha"][0])...)
-		return &c12Chal{E: c12HashQ(t.q(), t.sess, true, in...)}
+		return []c12HashItem{{"V", c12XY(t.st["V"])}, {"Rp", c12XY(t.st["Rp"])}, {"G", []*big.Int{g.X, g.Y}}, {"Alpha", c12XY(t.pf["Alpha"][0])}}
 	}
 	s.guards = func(t *c12Tr) bool {
 		return new(big.Int).Mod(t.i("T"), t.q()).Sign() != 0 && new(big.Int).Mod(t.i("U"), t.q()).Sign() != 0 &&
@@ -422,6 +424,8 @@ func c12BaseCommon(t *c12Tr, name string, rng *rand.Rand) c12V {
 		return c12P(t.cur.g.Gen())
 	case "Gamma":
 		return c12I(new(big.Int).Add(t.s("N"), c12One))
+	case "runit": // a unit modulo N (the multiplicative response of the MtA proofs is moved by it)
+		return c12I(c12RandUnit(rng, t.s("N")))
 	case "rand": // an N-th residue modulo N^2
 		N := t.s("N")
 		return c12I(new(big.Int).Exp(c12RandUnit(rng, N), N, new(big.Int).Mul(N, N)))
@@ -622,8 +626,13 @@ func c12Fac() *c12Sys {
 			"T": one(c12Prod(M, c12Exp(t.i("Q"), t.i("Z1"), M), c12Exp(tv, t.i("V"), M), Rme)),                // Q^z1 t^v = T (s^N0 t^sigma)^e
 		}
 	}
-	s.chal = func(t *c12Tr) *c12Chal {
-		return &c12Chal{E: c12HashQ(t.q(), t.sess, true, t.s("N0"), t.s("NCap"), t.s("s"), t.s("t"), t.i("P"), t.i("Q"), t.i("A"), t.i("B"), t.i("T"), t.i("Sigma"))}
+	s.tagged = true
+	s.hashIn = func(t *c12Tr) []c12HashItem {
+		out := []c12HashItem{{"N0", []*big.Int{t.s("N0")}}, {"NCap", []*big.Int{t.s("NCap")}}, {"s", []*big.Int{t.s("s")}}, {"t", []*big.Int{t.s("t")}}}
+		for _, n := range []string{"P", "Q", "A", "B", "T", "Sigma"} {
+			out = append(out, c12HashItem{n, []*big.Int{t.i(n)}})
+		}
+		return out
 	}
 	s.guards = func(t *c12Tr) bool {
 		if t.s("N0").Sign() != 1 || t.s("NCap").Sign() != 1 {
@@ -676,9 +685,11 @@ func c12Alice() *c12Sys {
 			"W": one(c12Prod(NT, c12Exp(t.s("h1"), t.i("S1"), NT), c12Exp(t.s("h2"), t.i("S2"), NT), c12Exp(t.i("Z"), me, NT))),          // w = h1^s1 h2^s2 z^-e
 		}
 	}
-	s.chal = func(t *c12Tr) *c12Chal {
+	s.tagged = false
+	s.hashIn = func(t *c12Tr) []c12HashItem {
 		N := t.s("N")
-		return &c12Chal{E: c12HashQ(t.q(), nil, false, N, new(big.Int).Add(N, c12One), t.s("c"), t.i("Z"), t.i("U"), t.i("W"))}
+		return []c12HashItem{{"N", []*big.Int{N}}, {"Gamma", []*big.Int{new(big.Int).Add(N, c12One)}}, {"c", []*big.Int{t.s("c")}},
+			{"Z", []*big.Int{t.i("Z")}}, {"U", []*big.Int{t.i("U")}}, {"W", []*big.Int{t.i("W")}}}
 	}
 	s.guards = func(t *c12Tr) bool {
 		N, NT, q := t.s("N"), t.s("NT"), t.q()
@@ -799,18 +810,21 @@ func c12Bob(wc bool) *c12Sys {
 		}
 		return out
 	}
-	s.chal = func(t *c12Tr) *c12Chal {
+	s.tagged = true
+	s.hashIn = func(t *c12Tr) []c12HashItem {
 		N := t.s("N")
-		in := []*big.Int{N, new(big.Int).Add(N, c12One)}
+		out := []c12HashItem{{"N", []*big.Int{N}}, {"Gamma", []*big.Int{new(big.Int).Add(N, c12One)}}}
 		if wc {
-			in = append(in, c12XY(t.st["X"])...)
+			out = append(out, c12HashItem{"X", c12XY(t.st["X"])})
 		}
-		in = append(in, t.s("c1"), t.s("c2"))
+		out = append(out, c12HashItem{"c1", []*big.Int{t.s("c1")}}, c12HashItem{"c2", []*big.Int{t.s("c2")}})
 		if wc {
-			in = append(in, c12XY(t.pf["U"][0])...)
+			out = append(out, c12HashItem{"U", c12XY(t.pf["U"][0])})
 		}
-		in = append(in, t.i("Z"), t.i("ZPrm"), t.i("T"), t.i("V"), t.i("W"))
-		return &c12Chal{E: c12HashQ(t.q(), t.sess, true, in...)}
+		for _, n := range []string{"Z", "ZPrm", "T", "V", "W"} {
+			out = append(out, c12HashItem{n, []*big.Int{t.i(n)}})
+		}
+		return out
 	}
 	s.guards = func(t *c12Tr) bool {
 		N, NT, q := t.s("N"), t.s("NT"), t.q()
@@ -874,4 +888,90 @@ func c12Own(t *c12Tr, e *c12Chal) bool {
 		return true
 	})
 	return ok && pan == ""
+}
+
+// ------------------------------------------------------------------ the challenge of an honest proof
+
+type c12HashItem struct {
+	Name string
+	Vals []*big.Int
+}
+
+// c12FindChallenge looks for the challenge under which the untouched transcript satisfies the harness' own equations.
+// The library does not export the challenge; the harness knows which values are meant to be hashed (hashIn, in the order
+// the library uses today) and tries that list first, then the list with the session tag and / or up to two of the values
+// left out - so that a library whose hash has lost an input still gets its shifted transcripts built with the challenge
+// IT uses (exactly the case the shift rows exist for).  The result is only used to build transformed transcripts.
+func c12FindChallenge(t *c12Tr) (e *c12Chal, layout string) {
+	sys := t.sys
+	if sys.chal != nil {
+		if e = sys.chal(t); e != nil && c12Own(t, e) {
+			return e, "read off the equations"
+		}
+		return nil, ""
+	}
+	if sys.hashIn == nil {
+		return nil, ""
+	}
+	items := sys.hashIn(t)
+	n := len(items)
+	try := func(tag bool, drop1, drop2 int) *c12Chal {
+		var in []*big.Int
+		for i, it := range items {
+			if i == drop1 || i == drop2 {
+				continue
+			}
+			in = append(in, it.Vals...)
+		}
+		if len(in) == 0 {
+			return nil
+		}
+		c := &c12Chal{E: c12HashQ(t.q(), t.sess, tag, in...)}
+		if c.E != nil && c12Own(t, c) {
+			return c
+		}
+		return nil
+	}
+	tags := []bool{sys.tagged}
+	if sys.tagged {
+		tags = append(tags, false)
+	}
+	name := func(tag bool, d1, d2 int) string {
+		s := "as documented"
+		var dropped []string
+		if sys.tagged && !tag {
+			dropped = append(dropped, "session")
+		}
+		for _, d := range []int{d1, d2} {
+			if d >= 0 {
+				dropped = append(dropped, items[d].Name)
+			}
+		}
+		if len(dropped) > 0 {
+			s = fmt.Sprintf("without %v", dropped)
+		}
+		return s
+	}
+	for _, tag := range tags {
+		if c := try(tag, -1, -1); c != nil {
+			return c, name(tag, -1, -1)
+		}
+	}
+	for _, tag := range tags {
+		for i := 0; i < n; i++ {
+			if c := try(tag, i, -1); c != nil {
+				return c, name(tag, i, -1)
+			}
+		}
+	}
+	for _, tag := range tags {
+		for i := 0; i < n; i++ {
+			for j := i + 1; j < n; j++ {
+				if c := try(tag, i, j); c != nil {
+					return c, name(tag, i, j)
+				}
+			}
+		}
+	}
+	return nil, ""
 }
